@@ -62,6 +62,18 @@ def main(argv):
     if args[0] == "--explain":
         print(open(args[1]).read())
         return 0
+    if args[0] == "--keys":
+        # developer aid: print the violation keys of a property as known-findings stubs (never written by a check)
+        import io, contextlib
+        buf = io.StringIO()
+        with contextlib.redirect_stdout(buf):
+            run_one(args[1], tier, seed)
+        vd = os.path.join(core.EVID, "violations")
+        for f in sorted(os.listdir(vd)):
+            if f.startswith(args[1] + "-") and f.endswith(".json"):
+                v = json.load(open(os.path.join(vd, f)))
+                print(json.dumps({"property": args[1], "key": v["key"], "status": "known", "what": v["msg"][:300]}))
+        return 0
     if args[0] == "--all":
         rc = 0
         for p in ALL:
